@@ -16,6 +16,7 @@ package lang
 
 import (
 	"github.com/awslabs/ar-go-tools/internal/funcutil"
+	"github.com/awslabs/ar-go-tools/internal/verifhook"
 	"golang.org/x/tools/go/ssa"
 )
 
@@ -154,6 +155,7 @@ func RunForwardIterative(op IterativeAnalysis, function *ssa.Function) {
 	var pathMem map[*ssa.BasicBlock]map[*ssa.BasicBlock]bool
 	worklist = append(worklist, function.Blocks[0])
 	for { // until fixpoint is reached
+		verifhook.At("lang.RunForwardIterative.step")
 		// Set the current Block if there is one
 		if len(worklist) == 0 {
 			return
